@@ -42,7 +42,7 @@ for pid in sys.argv[1:]:
         needs = ''
         m = re.search(r'(?is)(needs?|manifest)[^\n]*\n(.*?)(\n#|\n\n\n|\Z)', notes)
         meta = {
-            'breaks_property': pid,
+            'breaks_property': pid[:3],
             'origin': 'fresh sub-agent given only the property text and a scratch worktree (nothing from /verif)',
             'needs_to_manifest': 'see notes.md (written by the author of the change)',
             'confirmed_on_repo_commit': head,
@@ -55,6 +55,6 @@ for pid in sys.argv[1:]:
             },
             'caught_by': [{'rule': r, 'construct': k} for r, k in rules],
             'analysis_errors': [{'property': a, 'message': b[:200]} for a, b in errs],
-            'own_property_check_fires': any(r.startswith(pid + '.') for r, _ in rules),
+            'own_property_check_fires': any(r.startswith(pid[:3] + '.') for r, _ in rules),
         }
         json.dump(meta, open(dst + '/meta.json', 'w'), indent=1)
